@@ -28,6 +28,7 @@ EXPLANATION = (
   " (FIN-cref) in the tokenizer's two reference states the text handed to html.unescape includes the terminating semicolon, so &lrm; / &rlm; are decoded and an unknown reference stays as written;"
   ' (DEP-relative) the begin of a timestamp span is the timestamp minus the sum of the begins of all its ancestors (begins are parent-relative), so nested timestamps stay correct;'
   ' (FIN-position) for every position, position alignment, size and writing direction of a grid the region stays inside the root container along the positioned axis (origin >= 0, origin + extent <= 100);'
+  ' (PAIR-level) only the start-tag handler moves the insertion point down a level (one known finding: the timestamp handler does too, so an end tag after a timestamp closes the wrong span);'
 )
 RULE_TEXT = "per call site / function / enum / printed sample"
 UNDECIDED = ["cue-setting geometry (line numbers <= 0, position with size)", "tag scoping", "region sharing for equal settings"]
@@ -413,6 +414,30 @@ def check_position_box(ctx):
             f"{len(wrong)} of {n} combinations leave the root container, e.g. " + "; ".join(wrong[:3]))
 
 
+def check_level_owners(ctx):
+  """PAIR-level: the insertion point moves down one level for a start tag and up one level for the
+  matching end tag; the two handlers are the only ones that may move it (PAIR-span checks that they
+  do so once each).  A handler of a token that has no end tag (a timestamp) and yet descends into a
+  new span breaks the pairing: the next end tag closes that span instead of its own element, and the
+  text after the end tag stays inside the element."""
+  ix = ctx.ix
+  c = ix.cls("ttconv.vtt.reader:_TextCueParser")
+  ctx.unit(c.module)
+  n = 0
+  for name, m in sorted(c.methods.items()):
+    if name in ("__init__",):
+      continue
+    downs = [st for st in own_nodes(m.node) if isinstance(st, ast.Assign) and unparse(st.targets[0]) == "self.parent" and ".parent()" not in unparse(st.value)]
+    if not downs:
+      continue
+    n += 1
+    is_start = any(isinstance(a.annotation, ast.Name) and a.annotation.id == "StartTagToken" for a in m.node.args.args if a.annotation is not None) or "starttag" in name
+    ctx.check(is_start, "PAIR-level", f"{m.qualname}|{short(downs[0], 40)}", ctx.where(m.module, downs[0]), "descends for a start tag, which has an end tag",
+              f"{m.short} makes a new span the insertion point although its token has no end tag: the following end tag pops this span, not the element it belongs to "
+              "(`<i>x<00:00:01.500>y</i>z` leaves z inside the italic span)")
+  ctx.floor("PAIR-level", "handlers that move the insertion point down", n, 1)
+
+
 def run(ctx):
   ix = ctx.ix
   nul.IMPLICATIONS.clear()
@@ -473,4 +498,5 @@ def run(ctx):
   check_cref_terminator(ctx)
   check_timestamp_base(ctx)
   check_position_box(ctx)
+  check_level_owners(ctx)
   common.check_history_independence(ctx, ["ttconv.vtt.reader", "ttconv.vtt.tokenizer", "ttconv.utils"])
